@@ -1,9 +1,10 @@
 """C03 — Network measures equal their published definitions.
 
 proof  : lean/Pyunicorn/Properties/C03.lean (matrix formulas / kernel loops =
-         counts of the named sub-structures, Laplacian laws, efficiency and
-         closeness conventions, unit-weight n.s.i. relations, arithmetic width
-         of the cliquishness denominators)
+         counts of the named sub-structures, BFS = shortest walk length, Laplacian
+         laws, path-measure conventions, assortativity = Pearson, unit-weight
+         n.s.i. relations, arithmetic width of the cliquishness denominators,
+         translator tie translate/arith_C03.json)
 tie    : correspondence of the Lean model (lean/Pyunicorn/Model/Net*.lean) with
          the public methods of `Network` and with the Cython kernels called
          directly, on the same graphs: exact for integer outputs, |x - p/q| <=
@@ -1311,7 +1312,10 @@ def run(ctx):
     ctx.rule = ("graphs: all labelled undirected graphs on <= %d nodes, directed on <= %d nodes, random "
                 "G(n,p) with 6..40 nodes over p in 0.03..0.97, structured families (paths, stars, cliques, "
                 "cycles, bipartite, disjoint unions, isolated nodes, equal-length multipaths, wheel) and "
-                "permuted copies; every graph goes through every applicable measure; distinct = distinct "
+                "permuted copies; every graph goes through every applicable measure; a subset additionally "
+                "through every constructor / array type, the public wrappers with non-default arguments, "
+                "float32/float64 weights rescaled by powers of two and 12-step call histories on one object; "
+                "distinct = distinct "
                 "(directed, adjacency); non-trivial = at least 3 nodes and one link"
                 % ((4, 3) if quick else (5, 4)))
     ctx.trusted = common.DEFAULT_TRUSTED + [
